@@ -40,12 +40,16 @@ def cases(tier, seed):
     odd = [[2047], [2049], [3071], [3073], [2046], [2041], [3065], [1023], [4095], [2047, 3071], [1025, 2047], [2049, 3071], [3071, 4097], [2043, 3069, 4093]]
     if tier == 'thorough':
         odd += [[b + d] for b in (1024, 1536, 2048, 3072, 4096, 6144, 8192) for d in (-9, -7, -4, -3, -2, -1, 1, 2, 3, 5)] + [[2048 - d, 3072 - d] for d in (1, 2, 3, 4, 5, 6, 7)]
-    subs = subs + odd
+    # ... and servers that hand out such a group for the range request but answer the exact-size requests with their built-in 2048-bit group: the smaller one stays the result
+    odd_fallback = [[1280, 3072, 4096], [1280], [1023, 4096], [1535, 3072], [1279, 2048]]
+    subs = subs + odd + odd_fallback
     cs = []
     i = 0
     for s in subs:
         for style in ('strict', 'roundup', 'openssh', 'exact', 'roundup-max'):
             if s in odd and style not in ('strict', 'roundup'):
+                continue
+            if s in odd_fallback and style != 'openssh':
                 continue
             if style in ('exact', 'roundup-max') and tier == 'quick':
                 # two further readings of "strict" / "round-up" (exact preferred size only; smallest size between preferred and max): kept in the quick tier where they answer the probe sequence differently from the first two
